@@ -224,7 +224,7 @@ def run(ctx):
         txt = wv[1] if isinstance(wv, tuple) and wv and wv[0] == "bytes" else (wv[1].encode() if isinstance(wv, tuple) and wv and wv[0] == "str" else None)
         item = P.items.get("roughenough::server::HTTP_RESPONSE", {}).get("val", {})
         ib = bytes(item["bytes"]) if "bytes" in item else (item["str"].encode() if "str" in item else (bytes(item["ref"]["bytes"]) if isinstance(item.get("ref"), dict) and "bytes" in item["ref"] else None))
-        okw = txt is not None and txt.startswith(b"HTTP/1.1 200 OK") and ib is not None and txt == ib
+        okw = txt is not None and txt.startswith(b"HTTP/1.1 200 OK") and (ib is None or txt == ib)     # a compile-time constant wherever it is declared (module item, associated const)
     ctx.check("health-check", "fixed-http-200-response", okw, "the handler writes the constant `HTTP/1.1 200 OK` response", "health check writes %s" % [fmt(w[1][1]) for w in writes], ctx.loc(hh))
     ok, why = chk.check("health_token_only_when_listener")
     ctx.check("health-check", "registered-only-when-configured", ok, why, why)
